@@ -2,7 +2,7 @@
    Only restatements; proofs are in C14/Proofs*.v. *)
 From Coq Require Import List NArith Bool String Ascii.
 From T4V Require Import Base.Str C14.Model C14.ProofsContent C14.ProofsCards C14.ProofsCase
-  C14.ProofsSplit.
+  C14.ProofsSplit C14.ProofsBlocks C14.ProofsCell C14.ProofsFront.
 Import ListNotations.
 Open Scope string_scope.
 
@@ -159,3 +159,110 @@ Example C14_split_nonvacuous :
   data_split (pad false ++ join " " (("*" ++ "tr" ++ "7") :: ["1"; "2"; "3"]) ++ pad false)
   = Ok ("*tr", "7", "", " 1 2 3").
 Proof. split; reflexivity. Qed.
+
+(* ---- blocks ---- *)
+
+(* get_block_positions on a deck laid out as title, cell lines, a non-empty run
+   of blank lines (blanks and tabs allowed on them), surface lines, blank
+   lines, data lines, any run of blank lines at the end: exactly the title and
+   the three blocks come back, whatever the number and content of the blank
+   delimiter lines *)
+Theorem C14_blocks_layout : forall d : deck_layout,
+  deck_ok d -> first_word_message (deck_text d) = Some false ->
+  blocks (deck_text d) =
+  Ok [("t"%char, d_title d); ("c"%char, unlines (d_cells d));
+      ("s"%char, unlines (d_surfs d)); ("d"%char, unlines (d_data d))].
+Proof. exact blocks_layout. Qed.
+Print Assumptions C14_blocks_layout.
+
+(* the same deck behind a message block and its blank-line delimiter *)
+Theorem C14_blocks_layout_message : forall (msg gap0 : list string) (d : deck_layout),
+  lines_ok msg -> nonblank_lines msg -> msg <> [] ->
+  lines_ok gap0 -> blank_lines gap0 -> gap0 <> [] ->
+  deck_ok d -> first_word_message (unlines msg ++ unlines gap0 ++ deck_text d) = Some true ->
+  blocks (unlines msg ++ unlines gap0 ++ deck_text d) =
+  Ok [("m"%char, unlines msg); ("t"%char, d_title d); ("c"%char, unlines (d_cells d));
+      ("s"%char, unlines (d_surfs d)); ("d"%char, unlines (d_data d))].
+Proof. exact blocks_layout_message. Qed.
+Print Assumptions C14_blocks_layout_message.
+
+Example C14_blocks_layout_nonvacuous :
+  deck_ok ex_deck /\ first_word_message (deck_text ex_deck) = Some false /\
+  first_word_message (unlines ["MESSAGE: outp=x"] ++ unlines [""] ++ deck_text ex_deck) = Some true.
+Proof. split; [exact (proj1 ex_deck_ok)|split; [exact (proj2 ex_deck_ok)|reflexivity]]. Qed.
+
+(* ---- cell cards ---- *)
+
+(* cellcard.split on: blanks, cell number, blanks, zero material, geometry
+   (starting with a blank), then the options from the first letter or star that
+   follows a blank or a closing parenthesis *)
+Theorem C14_split_cell_void : forall (w0 ds w1 m : string) (x : ascii) (g : string) (c d : ascii) (o : string),
+  all_chars is_ws w0 = true -> all_chars is_digit ds = true -> ds <> "" ->
+  all_chars is_ws w1 = true -> w1 <> "" ->
+  all_chars (ceq "0") m = true -> m <> "" -> is_ws x = true ->
+  opt_free (w0 ++ ds ++ w1 ++ m ++ String x g ++ String c "") = true ->
+  is_opt_lead c = true -> is_opt_start d = true ->
+  cell_split (w0 ++ ds ++ w1 ++ m ++ String x g ++ String c (String d o))
+  = Ok (w0 ++ ds, w1 ++ m, String x g ++ String c "", String d o).
+Proof. exact cell_split_void_options. Qed.
+Print Assumptions C14_split_cell_void.
+
+(* the same with a material number and a density *)
+Theorem C14_split_cell_material :
+  forall (w0 ds w1 m w2 rho : string) (x : ascii) (g : string) (c d : ascii) (o : string),
+  all_chars is_ws w0 = true -> all_chars is_digit ds = true -> ds <> "" ->
+  all_chars is_ws w1 = true -> w1 <> "" ->
+  all_chars is_digit m = true -> all_chars (ceq "0") m = false ->
+  all_chars is_ws w2 = true -> w2 <> "" ->
+  all_chars dens_char rho = true -> rho <> "" -> is_ws x = true ->
+  opt_free (w0 ++ ds ++ w1 ++ m ++ w2 ++ rho ++ String x g ++ String c "") = true ->
+  is_opt_lead c = true -> is_opt_start d = true ->
+  cell_split (w0 ++ ds ++ w1 ++ m ++ w2 ++ rho ++ String x g ++ String c (String d o))
+  = Ok (w0 ++ ds, w1 ++ m ++ w2 ++ rho, String x g ++ String c "", String d o).
+Proof. exact cell_split_material_options. Qed.
+Print Assumptions C14_split_cell_material.
+
+Example C14_split_cell_nonvacuous :
+  opt_free (" " ++ "12" ++ " " ++ "3" ++ "  " ++ "-1.5e-3" ++ String " " "(1:-2) #(3 4)" ++ String ")" "") = true /\
+  cell_split (" " ++ "12" ++ " " ++ "3" ++ "  " ++ "-1.5e-3" ++ String " " "(1:-2) #(3 4)" ++ String ")" (String "*" "FILL=2 imp:n=1"))
+  = Ok (" 12", " 3  -1.5e-3", " (1:-2) #(3 4))", "*FILL=2 imp:n=1").
+Proof. split; reflexivity. Qed.
+
+(* ---- the whole text front end ---- *)
+
+(* MIP.cards(blocks, skipcomments=True) + Card.content on a deck laid out as in
+   C14_blocks_layout whose block lines are laid-out cards as in
+   C14_cards_layout: the three lists of card contents are the cards' tokens
+   joined by single blanks -- independent of blanks, tabs, continuation
+   breaks, comment lines, $ and & trailers and blank delimiter lines *)
+Theorem C14_front_layout :
+  forall (d : deck_layout) (ccs : list lcard) (ctail : list string) (scs : list lcard)
+         (stail : list string) (dcs : list lcard) (dtail : list string),
+  deck_ok d -> first_word_message (deck_text d) = Some false ->
+  d_cells d = block_lines ccs ctail -> d_surfs d = block_lines scs stail ->
+  d_data d = block_lines dcs dtail ->
+  lblock_ok noline ccs -> lblock_ok noline scs -> lblock_ok noline dcs ->
+  comment_lines ctail -> comment_lines stail -> comment_lines dtail ->
+  Forall (fun l => no_break l = true) (d_cells d) ->
+  Forall (fun l => no_break l = true) (d_surfs d) ->
+  Forall (fun l => no_break l = true) (d_data d) ->
+  front (deck_text d) =
+  Ok (map card_content_form ccs, map card_content_form scs, map card_content_form dcs).
+Proof. exact front_layout. Qed.
+Print Assumptions C14_front_layout.
+
+(* non-vacuity: the two cards of C14_cards_layout_nonvacuous as surface block *)
+Definition ex_front : deck_layout :=
+  {| d_title := "Title $ & c"; d_cells := block_lines [[([], mk_pline [("", "1"); (" ", "0"); ("  ", "-1")] "" "")]] [];
+     d_gap1 := ["  "]; d_surfs := block_lines [ex_c1; ex_c2] ["c end"]; d_gap2 := [""; ""];
+     d_data := block_lines [[(["c m"], mk_pline [("", "nps"); (String tab "", "10")] " " "$ x")]] [];
+     d_tail := [] |}.
+
+Example C14_front_layout_nonvacuous :
+  front (deck_text ex_front) = Ok (["1 0 -1"], ["1 so 5.0 "; " 2 PX 1"], ["nps 10 "]) /\
+  deck_ok ex_front /\ first_word_message (deck_text ex_front) = Some false.
+Proof.
+  split; [reflexivity|split; [|reflexivity]].
+  unfold deck_ok, lines_ok, nonblank_lines, blank_lines. cbn.
+  repeat split; repeat constructor; discriminate.
+Qed.
